@@ -129,7 +129,9 @@ pub fn gen_stack(rng: &mut Rng, depth: usize, axial: bool, allow: &[&str]) -> Ve
                 Layer::Frame(if tiny { tiny_rot(rng, f, axial) } else { plain(f) })
             }
             "Base" => {
-                let f = random_fr(rng, 1.0);
+                // (one base in ten stands tens of metres from the world origin: a robot on a long track or in site coordinates)
+                let far = rng.bool(0.1);
+                let f = random_fr(rng, if far { 60.0 } else { 1.0 });
                 Layer::Base(if tiny { tiny_rot(rng, f, false) } else { plain(f) })
             }
             _ => {
